@@ -176,8 +176,10 @@ def record_loc(span, label):
         r = span.get_loc(label)
     except Exception:  # noqa: BLE001  (the container turns every exception into KeyError)
         return ['missing']
-    if isinstance(r, (int, np.integer)) and not isinstance(r, (bool, np.bool_)):
+    if isinstance(r, int) and not isinstance(r, bool):
         return ['pos', int(r)]
+    if isinstance(r, np.integer):
+        return ['npos', int(r)]
     if isinstance(r, slice) and r.step in (None, 1) and r.start is not None and r.stop is not None:
         return ['slice', int(r.start), int(r.stop)]
     return None   # boolean mask etc.: outside the model
